@@ -35,7 +35,7 @@ func init() {
 		modes: func(tier string, seed int64) []modeSpec {
 			n := 32
 			if tier == "thorough" {
-				n = 640
+				n = 1280
 			}
 			return []modeSpec{
 				{name: "provider", n: n, perChild: 1, parallel: 16, netns: true, timeout: 15 * time.Minute},
